@@ -189,4 +189,30 @@ CONF["C17"] = {
     "assumptions": ["closed-form oracles as stated in the property"],
 }
 
+CONF["C15"] = {
+    "pkg": "c15",
+    "level": "exploration",
+    "exhaustive_claim": True,
+    "technique": "exhaustive enumeration of the generated tables through the read-only hook (all 65536x256 lookups, every entry, every constructor, every container slot) against the FIT base-type model and reflection on the public message types; independent reading of the bundled SDK workbook for the field-number mapping",
+    "level_text": "The tables are finite, so the check enumerates them completely on every run: each lookup entry must name a distinct in-range struct field whose Go type matches base type / array flag / kind, whose constructor value is the model's invalid value, whose encoded size fits a byte; every struct field must have an entry; every known message must have type, constructor and reverse lookup; every container slot type must be known. One decode per entry and one encode per file type with all fields set confirm the reflection paths dynamically. The field-number mapping is compared row by row with an independent XML reading of SDK workbook 21.40 (thorough: all five bundled workbooks).",
+    "level_note": "Trusted: the hook copies the table entries verbatim; fitmodel base type table. The declared SDK 21.115 workbook is not available offline: 756 of the 779 entries are cross-checked against 21.40, the other 23 only for internal consistency (stated in the evidence).",
+    "quick": {"checks": 1, "timeout": 300},
+    "thorough": {"checks": 1, "timeout": 600},
+    "rule": "every table entry is a distinct case and counted non-trivial (it exercises index, type, invalid value and size rules); lookups: all 16.7M (message number, field number) pairs; dynamic: one single-field stream per entry and byte order, one all-fields File per file type and byte order; sdk: one comparison per enabled workbook row.",
+    "assumptions": ["hook export is faithful", "independent workbook reader (harness/wb) reads the Messages and Types sheets correctly (it agrees with the generator's goldens on all five workbooks)"],
+}
+CONF["C20"] = {
+    "pkg": "c20",
+    "pregen": [["go", "run", "./tools/gentypes", "{repo}/types.go", "c20/zz_types_test.go"]],
+    "level": "exploration",
+    "exhaustive_claim": True,
+    "technique": "exhaustive enumeration of every named constant (table generated at check time from types.go with go/types) and of all non-constant 8-bit values, rapid-drawn wide values; byte-for-byte regeneration of types_string.go with the repository's own stringer",
+    "level_text": "The constants are a finite set: a table of every integer type and named constant is generated from /repo/types.go at check time (go/parser + go/types constant evaluation) and String() is called on every constant and on every other value of every 8-bit type; 16/32-bit types are probed at neighbours of constants, powers of two and rapid-drawn values. The checked-in string tables are regenerated with the repository's forked stringer and compared byte for byte; the type list must equal the file's header.",
+    "level_note": "Trusted: go/types constant evaluation; 'name without the type prefix' = strings.TrimPrefix(constant name, type name). Bool (types_man.go) is hand-written and outside 'generated FIT type'.",
+    "quick": {"checks": 50, "timeout": 300},
+    "thorough": {"checks": 5000, "timeout": 900},
+    "rule": "constants: each (type, named constant) once; other-values: every non-constant value of 8-bit types, +-1 around constants, 2^k and 2^k-1 for wider types - distinct by construction. wide-values: 200 rapid-drawn (type, value) pairs per rapid case, half of them within 3 of a constant; distinct by fingerprint. regeneration: one run of the repository's stringer.",
+    "assumptions": ["go/types evaluates the constants as the compiler does"],
+}
+
 NOT_APPLICABLE = {}
